@@ -491,6 +491,8 @@ fn key_of(run: &Run) -> Key {
 }
 
 pub struct RequestRun {
+    /// histories executed beyond a refused request (see `explore`)
+    pub followups: u64,
     pub states: u64,
     pub transitions: u64,
     pub levels: Vec<Value>,
@@ -499,8 +501,51 @@ pub struct RequestRun {
     pub samples: Vec<Value>,
 }
 
-fn explore(kind: u8, depth: usize, threads: usize) -> RequestRun {
-    let mut out = RequestRun { states: 1, transitions: 0, levels: vec![], violations: BTreeMap::new(), violating: 0, samples: vec![] };
+fn requests_after(hist: &[Req]) -> Vec<Req> {
+    let issued = hist.iter().filter(|r| matches!(r, Req::Add(_))).count();
+    let mut reqs: Vec<Req> = (0..3).map(Req::Add).collect();
+    // handles: at most `issued` were really issued (rejected adds issue nothing)
+    for h in 0..issued.min(250) {
+        reqs.push(Req::Remove(h as u8));
+    }
+    reqs.push(Req::Remove(NEVER));
+    reqs.push(Req::Close(0));
+    reqs.push(Req::Close(1));
+    reqs
+}
+
+/// A refused request (or a close with nothing pending) leaves the model where it was, so the
+/// search merges the state it leads to with its predecessor and would never look beyond it. The
+/// statement says the *builder* is left as it was: every continuation of up to `len` further
+/// requests is therefore executed after the refused one as well, compared with the model (which
+/// ignores the refused request) after every request. Returns the first disagreement.
+fn follow_refused(kind: u8, h: &[Req], len: usize, count: &AtomicU64) -> Option<(Vec<Req>, String, String)> {
+    if len == 0 {
+        return None;
+    }
+    for w in requests_after(h) {
+        let mut h2 = h.to_vec();
+        h2.push(w);
+        let (run, bad) = replay_history(kind, &h2);
+        if let Req::Remove(x) = w {
+            if x != NEVER && (x as usize) >= run.ids.len() && bad.is_none() {
+                continue;
+            }
+        }
+        count.fetch_add(1, Ordering::Relaxed);
+        if let Some((k, t)) = bad.map(|(_, k, t)| (k, t)).or_else(|| check_build(kind, &h2)) {
+            return Some((h2, k, t));
+        }
+        if let Some(x) = follow_refused(kind, &h2, len - 1, count) {
+            return Some(x);
+        }
+    }
+    None
+}
+
+fn explore(kind: u8, depth: usize, follow: (usize, usize), threads: usize) -> RequestRun {
+    let followups = AtomicU64::new(0);
+    let mut out = RequestRun { followups: 0, states: 1, transitions: 0, levels: vec![], violations: BTreeMap::new(), violating: 0, samples: vec![] };
     let seen: Mutex<HashSet<Key>> = Mutex::new(HashSet::new());
     let mut frontier: Vec<Vec<Req>> = vec![vec![]];
     for level in 0..depth {
@@ -517,15 +562,8 @@ fn explore(kind: u8, depth: usize, threads: usize) -> RequestRun {
                         break;
                     }
                     let hist = &frontier[i];
-                    let issued = hist.iter().filter(|r| matches!(r, Req::Add(_))).count();
-                    let mut reqs: Vec<Req> = (0..3).map(Req::Add).collect();
-                    // handles: at most `issued` were really issued (rejected adds issue nothing)
-                    for h in 0..issued.min(250) {
-                        reqs.push(Req::Remove(h as u8));
-                    }
-                    reqs.push(Req::Remove(NEVER));
-                    reqs.push(Req::Close(0));
-                    reqs.push(Req::Close(1));
+                    let reqs = requests_after(hist);
+                    let parent_model = if level < follow.0 { Some(replay_history(kind, hist).0.model) } else { None };
                     for r in reqs {
                         let mut h2 = hist.clone();
                         h2.push(r);
@@ -546,6 +584,16 @@ fn explore(kind: u8, depth: usize, threads: usize) -> RequestRun {
                             let mut g = viol.lock().unwrap();
                             g.entry(key.clone()).or_insert_with(|| Violation::new(key, format!("after {:?}: {}", h2, t), case_json(kind, &h2)));
                             continue;
+                        }
+                        if parent_model.as_ref() == Some(&run.model) {
+                            // refused (or a close with nothing pending): look beyond it
+                            if let Some((h3, k, t)) = follow_refused(kind, &h2, follow.1, &followups) {
+                                violating.fetch_add(1, Ordering::Relaxed);
+                                let key = format!("C12/after-refused-request/{}/{}", k, KINDS[kind as usize]);
+                                let mut g = viol.lock().unwrap();
+                                g.entry(key.clone()).or_insert_with(|| Violation::new(key, format!("after {:?} (request #{} was refused and must leave no trace): {}", h3, h2.len(), t), case_json(kind, &h3)));
+                                continue;
+                            }
                         }
                         let key = key_of(&run);
                         if seen.lock().unwrap().contains(&key) {
@@ -588,6 +636,7 @@ fn explore(kind: u8, depth: usize, threads: usize) -> RequestRun {
             }
         }
     }
+    out.followups = followups.load(Ordering::Relaxed);
     out
 }
 
@@ -598,12 +647,21 @@ pub fn main(args: &Args, threads: usize) -> ! {
     let mut transitions = 0;
     let mut per = vec![];
     let mut samples = vec![];
+    // (states up to this depth, continuations of this length) explored beyond every refused request
+    let follow = match (std::env::var("VERIF_C12_FOLLOW").ok(), args.tier) {
+        (Some(v), _) => {
+            let mut it = v.split(',').map(|x| x.parse::<usize>().unwrap_or(0));
+            (it.next().unwrap_or(0), it.next().unwrap_or(0))
+        }
+        (None, Tier::Quick) => (6, 2),
+        (None, Tier::Thorough) => (7, 3),
+    };
     for kind in 0..2u8 {
-        let r = explore(kind, depth, threads);
-        eprintln!("C12 request mode, {} builder: depth {} states {} transitions {} violating {}", KINDS[kind as usize], depth, r.states, r.transitions, r.violating);
+        let r = explore(kind, depth, follow, threads);
+        eprintln!("C12 request mode, {} builder: depth {} states {} transitions {} beyond-refused {} violating {}", KINDS[kind as usize], depth, r.states, r.transitions, r.followups, r.violating);
         states += r.states;
-        transitions += r.transitions;
-        per.push(json!({"builder": KINDS[kind as usize], "depth": depth, "states": r.states, "transitions": r.transitions, "violating_transitions": r.violating, "levels": r.levels}));
+        transitions += r.transitions + r.followups;
+        per.push(json!({"builder": KINDS[kind as usize], "depth": depth, "states": r.states, "transitions": r.transitions, "beyond_refused_requests": {"from_states_up_to_depth": follow.0, "continuation_length": follow.1, "histories_executed": r.followups}, "violating_transitions": r.violating, "levels": r.levels}));
         samples.extend(r.samples);
         report.violations_total += r.violating;
         for (_, v) in r.violations {
@@ -625,7 +683,7 @@ pub fn main(args: &Args, threads: usize) -> ! {
         .cov("exhaustive", l.complete)
         .cov("request_mode", per)
         .cov("layout_mode_membership", json!({"states": l.states, "transitions": l.transitions, "complete": l.complete, "passes": l.passes}))
-        .cov("explanation", "request mode: BFS over single requests {add a|b|c, remove <every issued handle | never-issued id>, close with two strategies}, every request applied to the real builder and to the reference model, all observations (current data, by-name lookups in the current and in every closed variant, variant count and membership, build()) compared after every request; key = real variant lists + ordered pending lists + names. layout mode: membership oracle on every whole-variant transition of the layout exploration");
+        .cov("explanation", "request mode: BFS over single requests {add a|b|c, remove <every issued handle | never-issued id>, close with two strategies}, every request applied to the real builder and to the reference model, all observations (current data, by-name lookups in the current and in every closed variant, variant count and membership, build()) compared after every request; key = real variant lists + ordered pending lists + names; a refused request leaves the model (hence the key) unchanged, so every continuation of bounded length is additionally executed after every refused request of every state up to a bounded depth (beyond_refused_requests). layout mode: membership oracle on every whole-variant transition of the layout exploration");
     report.assume("the first close of a builder creates the (possibly empty) first variant; the id returned by a no-op close is not constrained");
     report.assume("three names, two closing strategies per builder in request mode");
     std::process::exit(report.finish());
